@@ -336,7 +336,7 @@ def lean_check(ctx, prop=None, lean_dir=None):
             cur = None
             txt = r2.stdout
             # output format: 'X' depends on axioms: [a, b]   |  'X' does not depend on any axioms
-            for m in re.finditer(r"'([^']+)' (does not depend on any axioms|depends on axioms: \[([^\]]*)\])", txt, re.S):
+            for m in re.finditer(r"^'(.+?)' (does not depend on any axioms|depends on axioms: \[([^\]]*)\])", txt, re.S | re.M):
                 nm = m.group(1)
                 axs = [a.strip() for a in (m.group(3) or "").replace("\n", " ").split(",") if a.strip()]
                 axioms[nm] = axs
